@@ -223,13 +223,29 @@ class Ctx:
             self.cov["samples"].append(s)
 
     def finish(self, level="model_checking", exhaustive=None):
+        if os.environ.get("VERIF_DUMP_VIOLATIONS"):
+            # maintenance aid (bin/baseline_inputs): every violation key of this run, before known findings are applied
+            with open(os.environ["VERIF_DUMP_VIOLATIONS"], "w") as f:
+                json.dump(sorted(set(v["key"] for v in self.violations)), f)
         kf = load_known()
         mine = [k for k in kf.get("findings", []) if k["property"] == self.pid]
         keys = {k["key"]: k for k in mine if "key" in k}
         prefixes = [k for k in mine if "key_prefix" in k]
         unlisted = []
         seen_known = {}
+        # findings listed input by input: {"inputs_file": f} with f = {group: [input, ...]}, violation key "<group>@<input>"
+        listed = {}
+        for k in mine:
+            if "inputs_file" in k:
+                for g, ins in json.load(open(os.path.join(VERIF, k["inputs_file"]))).items():
+                    listed[g] = (k, set(ins))
+        seen_listed = {}
         for v in self.violations:
+            if "@" in v["key"]:
+                g, inp = v["key"].split("@", 1)
+                if g in listed and inp in listed[g][1]:
+                    seen_listed.setdefault(g, []).append((inp, v))
+                    continue
             if v["key"] in keys:
                 seen_known.setdefault(v["key"], (keys[v["key"]], v))
                 continue
@@ -240,6 +256,11 @@ class Ctx:
                 unlisted.append(v)
         for k, (entry, v) in seen_known.items():
             print("KNOWN-FINDING: property=%s %s (%s)" % (self.pid, k, entry.get("what", v["what"])))
+        for g in sorted(seen_listed):
+            inp, v = seen_listed[g][0]
+            print("KNOWN-FINDING: property=%s %s: %d of the %d listed inputs reproduced, e.g. %s: %s" % (
+                self.pid, g, len(seen_listed[g]), len(listed[g][1]), inp, v["what"][:300]))
+            seen_known[g + "@*"] = (listed[g][0], v)
         cov = self.cov
         if exhaustive is not None:
             cov["exhaustive"] = exhaustive
